@@ -176,7 +176,7 @@ def run(ctx):
     if mismatch:
         ctx.violation("the real API layer (soxr.c + data-io.c over the toy engine) and the model disagree at op %s `%s`:\n real  %s\n model %s"
                       % (mismatch["op_index"], mismatch["op"], mismatch["real"], mismatch["model"]),
-                      {"harness": "chan/api.c", "job": mismatch["job"]}, no_input=(nviol == 0))
+                      {"harness": "chan/api.c", "job": mismatch["job"]}, no_input=False)
     ctx.cov["rule"] = ("tie: random toy-engine jobs (ch 1..8, 4 layouts, 16 datatype pairs, float/double/VR-flavoured engine, dither on/off, "
                        "ratios m/l, user scale 1/2/4 so that int outputs clip) of 4..25 API calls (process with/without input, flush "
                        "request, idone, NULL out; output with scripted input function incl. failure / end / short supplies; set_input_fn; "
